@@ -16,7 +16,7 @@ LEVEL = "exploration"
 RULE = ("format: Hypothesis draws specs from the accepted grammar [[fill]align][sign][#][0][width][_][type] (fill "
         "incl. non-ASCII and '{'-free punctuation, align < > =, sign + - space, type b o d x X c s or none) and values of "
         "width 0..24 signed/unsigned (for c: valid code points; for s: UTF-8 text, least significant byte "
-        "first, NUL bytes as padding after, before or between the characters), several arguments per Format, literal text with doubled braces, Print with sep/end and "
+        "first, NUL bytes as padding after, before or between the characters), several arguments per Format, widths given as nested replacement fields under automatic numbering, literal text with doubled braces, Print with sep/end and "
         "bare values/strings; the captured stdout of the simulation at the clock edge, and the text of the "
         "AssertionError raised through Assert/Assume with a Format or plain-string message, must equal Python's "
         "str.format / print result for the value interpreted in its own shape. reject: specs from the rejected grammar "
@@ -62,11 +62,17 @@ def draw_spec(draw, typ, signed_val):
             spec += "#"; opts += 1
         if draw(INT(0, 3)) == 0:
             spec += "0"; opts += 1
+    nested = None
     if draw(BOOL):
-        spec += str(draw(INT(1, 30))); opts += 1
+        wd = draw(INT(1, 30)); opts += 1
+        if draw(INT(0, 3)) == 0:
+            nested = [spec + "{}", wd]        # the width given as a nested replacement field: "{:{}d}".format(value, width)
+        spec += str(wd)
     if not textual and draw(INT(0, 3)) == 0:
         spec += "_"; opts += 1
-    return spec + typ, opts
+        if nested: nested[0] += "_"
+    if nested: nested[0] += typ
+    return spec + typ, opts, nested
 
 
 def draw_arg(draw):
@@ -114,19 +120,23 @@ LITERALS = ["", " ", "x=", "{{", "}}", "{{}}", "a{{b}}c", "→", "%d", "\\", "'"
 @st.composite
 def format_cases(draw):
     n = draw(INT(1, 3))
-    args, pieces = [], []
+    args, pieces, npieces = [], [], []
     opts_total = 0
     for i in range(n):
         shape, v, typ = draw_arg(draw)
-        spec, opts = draw_spec(draw, typ, shape[1])
+        spec, opts, nested = draw_spec(draw, typ, shape[1])
         opts_total = max(opts_total, opts)
         more = [draw(value_of_shape(*shape)) if typ not in ("c", "s") else v for _ in range(2)]
-        args.append({"shape": shape, "values": [v] + more, "type": typ, "spec": spec})
-        pieces.append(PICK(draw, LITERALS))
-        pieces.append("{:" + spec + "}" if spec or draw(BOOL) else "{}")
-    pieces.append(PICK(draw, LITERALS))
+        args.append({"shape": shape, "values": [v] + more, "type": typ, "spec": spec, "nested": nested})
+        lit = PICK(draw, LITERALS)
+        pieces.append(lit); npieces.append(lit)
+        plain = "{:" + spec + "}" if spec or draw(BOOL) else "{}"
+        pieces.append(plain)
+        npieces.append("{:" + nested[0] + "}" if nested else plain)
+    lit = PICK(draw, LITERALS)
+    pieces.append(lit); npieces.append(lit)
     mode = PICK(draw, ["print-format", "print-format", "print-args", "assert-format", "assume-format", "assert-str"])
-    return {"args": args, "fmt": "".join(pieces), "mode": mode, "opts": opts_total,
+    return {"args": args, "fmt": "".join(pieces), "fmt_nested": "".join(npieces), "mode": mode, "opts": opts_total,
             "sep": PICK(draw, [None, "", " ", ", ", "{"]), "end": PICK(draw, [None, "", "\n", "!", "}}"]),
             "strmsg": PICK(draw, ["plain", "got {} instead", "{{x}}", "{", "}", "a{0}b", "{:d}"])}
 
@@ -140,12 +150,19 @@ def format_body(ctx, case):
         m.domains.sync = cd = ClockDomain()
         sigs = [Signal(Shape(a["shape"][0], a["shape"][1]), name=f"v{i}") for i, a in enumerate(args)]
         go = Signal()
+        # automatic numbering with nested replacement fields: each width is the positional argument after its value
+        fargs = []
+        for i, a in enumerate(args):
+            fargs.append(sigs[i])
+            if a.get("nested"):
+                fargs.append(a["nested"][1])
+        ffmt = case.get("fmt_nested", case["fmt"])
         kw = {}
         if case["sep"] is not None: kw["sep"] = case["sep"]
         if case["end"] is not None: kw["end"] = case["end"]
         if mode == "print-format":
             with m.If(go):
-                m.d.sync += Print(Format(case["fmt"], *sigs), **kw)
+                m.d.sync += Print(Format(ffmt, *fargs), **kw)
         elif mode == "print-args":
             # bare values, strings and Format objects as separate print() arguments
             pargs = []
@@ -157,7 +174,7 @@ def format_body(ctx, case):
                 m.d.sync += Print(*pargs, **kw)
         elif mode in ("assert-format", "assume-format"):
             K = Assert if mode == "assert-format" else Assume
-            m.d.sync += K(~go, Format(case["fmt"], *sigs))
+            m.d.sync += K(~go, Format(ffmt, *fargs))
         else:
             m.d.sync += Assert(~go, case["strmsg"])
         sim = Simulator(m)
@@ -241,6 +258,8 @@ def format_body(ctx, case):
     if any("=" in a["spec"] for a in args): keys.append("fmt:align=")
     if any(a["spec"][:1] and a["spec"][:1] not in "<>=+- #0123456789_bodxXcs" for a in args): keys.append("fmt:fill")
     if "{{" in case["fmt"] or "}}" in case["fmt"]: keys.append("fmt:literal-braces")
+    if any(a.get("nested") for a in args) and mode in ("print-format", "assert-format", "assume-format"):
+        keys.append("fmt:nested-width-field")
     if mode == "assert-str" and ("{" in case["strmsg"] or "}" in case["strmsg"]): keys.append("fmt:str-message-with-braces")
     ctx.note(case, case["opts"] >= 2 or "fmt:negative" in keys, *keys, evals=max(len(results), 1))
 
@@ -507,4 +526,4 @@ REQUIRED = ["fmt:print-format", "fmt:print-args", "fmt:assert-format", "fmt:assu
             "reject:raised", "tim:edge-pos", "tim:edge-neg", "tim:async-reset", "tim:printed", "tim:silent-edge",
             "tim:inactive-before-active", "tim:assert-stopped", "tim:async-reset-rise",
             "tim:async-reset-rise-after-inactive-edge", "tim:monitor-enable-inserter", "tim:monitor-plain",
-            "tim:monitor-enabled-edge", "tim:monitor-disabled-edge", "fmt:s-zero-byte-below-a-character"]
+            "tim:monitor-enabled-edge", "tim:monitor-disabled-edge", "fmt:s-zero-byte-below-a-character", "fmt:nested-width-field"]
